@@ -68,6 +68,7 @@ SPEC = {
              "hash of the operation/argument sequence. Concurrent case = 1..4 recorder threads x 40..600 planned Adds "
              "racing one collecting thread per reader (1..3), optionally each recorder creating its own handle of the same "
              "instruments, then a quiescent collect per reader."),
+    "rule_extra": ' Round 2: one view in six is a Drop-aggregation view (it matches, so no default stream, and reports nothing); per reader and stream the chain of delta intervals handed out (MetricData with or without points) must abut strictly.',
     "assumptions": ASSUME_COMMON + [
         "negative Adds on a monotonic Counter are ignored by specification; the model ignores them too (counted)",
         "NaN/inf are not recorded; totals stay below 2^62",
